@@ -425,6 +425,24 @@ enum E {
     D { p: u8, q: Option<bool> },
 }
 
+/// enums that accept variant names OUTSIDE serde's static `variants` list (a catch-all, an alias): a decoder must hand the name to the visitor, not
+/// look it up in that list itself (harness-only types: judged against serde_json alone, the model does not know them)
+#[derive(Deserialize, Debug, PartialEq)]
+enum G {
+    Known,
+    #[serde(other)]
+    Unknown,
+}
+
+#[derive(Deserialize, Debug, PartialEq)]
+enum H {
+    #[serde(alias = "b")]
+    B(i32),
+    A,
+    #[serde(other)]
+    Rest,
+}
+
 /// newtype variants whose payload can itself be null (an enum decoder that looks at the payload to decide "unit variant" gets these wrong)
 #[derive(Deserialize, Debug, PartialEq)]
 enum F {
@@ -623,6 +641,32 @@ impl Dbg for U {
     }
 }
 
+impl Dbg for G {
+    fn dbg(&self, out: &mut Vec<String>) {
+        open(out, "var");
+        out.push(hex(match self {
+            G::Known => b"Known".as_ref(),
+            G::Unknown => b"Unknown".as_ref(),
+        }));
+        close(out);
+    }
+}
+
+impl Dbg for H {
+    fn dbg(&self, out: &mut Vec<String>) {
+        open(out, "var");
+        match self {
+            H::B(x) => {
+                out.push(hex(b"B"));
+                x.dbg(out);
+            }
+            H::A => out.push(hex(b"A")),
+            H::Rest => out.push(hex(b"Rest")),
+        }
+        close(out);
+    }
+}
+
 impl Dbg for F {
     fn dbg(&self, out: &mut Vec<String>) {
         open(out, "var");
@@ -731,7 +775,7 @@ fn case_de(fields: &[&str]) -> String {
         Ok(t) => t,
         Err(_) => return format!("BADCASE de {}", fields[1]),
     };
-    if ty > 35 {
+    if ty > 38 {
         return format!("BADCASE de {}", ty);
     }
     let var = parse_value(fields[2]);
@@ -773,6 +817,9 @@ fn case_de(fields: &[&str]) -> String {
         33 => run::<F>(var, val),
         34 => run::<Vec<F>>(var, val),
         35 => run::<BTreeMap<UserId, i32>>(var, val),
+        36 => run::<G>(var, val),
+        37 => run::<Vec<H>>(var, val),
+        38 => run::<BTreeMap<String, G>>(var, val),
         _ => unreachable!(),
     }
 }
